@@ -1,0 +1,50 @@
+//go:build verif
+// +build verif
+
+package service
+
+import "com.tuntun.rangers/node/src/middleware/db"
+
+// Verification hook (build tag "verif" only, add-only): lets a test run code at the point where
+// the pool has just read the executed store in its existence check, i.e. between the check and
+// the insertion in TxPool.add. Used to replay one specific interleaving deterministically.
+
+type verifHasHookDB struct {
+	db.Database
+	after func(key []byte)
+}
+
+func (h *verifHasHookDB) Has(key []byte) (bool, error) {
+	ok, err := h.Database.Has(key)
+	if f := h.after; f != nil {
+		h.after = nil // one shot
+		f(key)
+	}
+	return ok, err
+}
+
+// VerifAfterNextExecutedHas arranges for f to run once, right after the pool's next Has() on
+// its executed store returned. restore puts the original store handle back.
+func VerifAfterNextExecutedHas(f func(key []byte)) (restore func()) {
+	pool, ok := txpoolInstance.(*TxPool)
+	if !ok || pool == nil {
+		return func() {}
+	}
+	orig := pool.executed
+	pool.executed = &verifHasHookDB{Database: orig, after: f}
+	return func() { pool.executed = orig }
+}
+
+// VerifDrainPending empties the pending container directly (test clean-up between generated
+// cases that does not go through MarkExecuted) and returns how many entries were dropped.
+func VerifDrainPending() int {
+	pool, ok := txpoolInstance.(*TxPool)
+	if !ok || pool == nil {
+		return 0
+	}
+	keys := pool.received.data.Keys()
+	if len(keys) > 0 {
+		pool.received.remove(keys)
+	}
+	return len(keys)
+}
